@@ -96,12 +96,16 @@ class ValidateVariableNamesVisitor(Visitor.DefaultVisitor):
             forStatement.AcceptVisitor(self, ctx)
 
     def v_IfStatement(self, ifStatement, ctx=None):
-        ctx = self.Context(ctx)
-
         with Errors.CompileExceptionToErrorHandler(
             self.errorHandler, self.__onError
         ):
-            ifStatement.AcceptVisitor(self, ctx)
+            # Each branch is a scope of its own
+            for branch in (
+                ifStatement.GetTruePath(),
+                ifStatement.GetElsePath(),
+            ):
+                if branch is not None:
+                    self.v_Visit(branch, self.Context(ctx))
 
     def v_VariableDeclaration(self, decl, ctx):
         ctx.Add(decl.GetName(), decl.GetLocation())
